@@ -3,7 +3,7 @@ import collections
 import hashlib
 import random
 
-from vmon import env, history, ir as irmod, vstore
+from vmon import env, history, ir as irmod, regmodel, vstore
 
 ID = "C14"
 LEVEL = "exploration"
@@ -264,6 +264,60 @@ def run_case(desc):
     snap = S.snapshot()
     state_before = S.state_desc()
     bad = None
+    if desc["seed"] % 6 == 3:
+        # a source that the registry given to run does NOT cover (it was sourced through another registry): the real run fails at that source -
+        # having done, with max_errors=None, everything that does not depend on it; and so does the dry run's plan executed alone
+        ps = [i for i in S.reg if S.rp.role[i] == "psrc" and S.argsucc[i]]
+        if ps:
+            victim = rng.choice(ps)
+            reg2 = S.registry.copy()
+            del reg2.mapping[S.ir.nodes[victim].node]
+            downstream = {victim}
+            st_ = [victim]
+            while st_:
+                u_ = st_.pop()
+                for m_ in S.succs[u_]:
+                    if m_ not in downstream:
+                        downstream.add(m_)
+                        st_.append(m_)
+            upstream = {victim}
+            st_ = [victim]
+            while st_:
+                u_ = st_.pop()
+                for m_ in S.preds[u_]:
+                    if m_ not in upstream:
+                        upstream.add(m_)
+                        st_.append(m_)
+            # fresh_time just after every stored value: everything registered is out of date whichever registry is given, so what the full
+            # registry's expectation says about calls UNRELATED to the uncovered source (neither above nor below it) holds for this run too
+            fresh = S.clock.now() + 0.5
+            exp_ = S.expect(out_ids, fresh)
+            related = downstream | upstream
+            # the expectation restricted to REASONS that are unrelated to the uncovered source: an unregistered call counts only when something
+            # unrelated and out of date (or an unrelated requested output) needs it
+            O_ = set(regmodel.ids_of(out_ids))
+            need_ = set()
+            for n_ in reversed(S.ir.nodes):
+                i_ = n_.id
+                if i_ in S.reg or i_ in related:
+                    continue
+                if i_ in O_ or any(((m_ in S.reg and m_ not in related and exp_.ood[m_]) or m_ in need_) for m_ in S.succs[i_]):
+                    need_.add(i_)
+            indep_calls = {i for i in need_ if S.ir.nodes[i].kind == "call"} | {i for i in S.reg if i not in related and S.rp.role[i] == "stored" and exp_.ood[i]}
+            indep_calls &= set(exp_.execs)
+            indep_writes = {S.store_name[i] for i in exp_.writes if i not in related}
+            W_ = rng.choice([1, 4])
+            resR, excR = S.run(out_ids, W=W_, fresh_tick=fresh, registry=reg2, max_errors=None)
+            execsR, readsR, writesR, sideR, _ = S.observed()
+            r_ = {"status": "ok", "counters": {"dry_runs": 0, "uncovered_source_runs": 1, "uncovered_source_independent_calls": len(indep_calls)}, "nontrivial": bool(indep_calls),
+                  "sig": hashlib.sha1(("\n".join(S.describe(200)) + f"|uncovered|{victim}|{out_ids}|{fresh}").encode()).hexdigest()[:16]}
+            missing_c = sorted(indep_calls - set(execsR))
+            missing_w = sorted(indep_writes - set(writesR))
+            if missing_c or missing_w:
+                r_.update(status="violation", mechanism="dry-run", witness={"plan": S.describe(200), "prefix": log, "state": state_before, "out": out_ids},
+                          detail=f"source n{victim} is not covered by the registry given to run: the run fails there ({repr(excR)[:80]}) - but with max_errors=None it first "
+                                 f"performs everything that does not depend on that source; never executed: calls {missing_c[:8]}, writes {missing_w[:8]}")
+            return r_
     if desc["seed"] % 6 == 2 and S.store_name:
         # a registered store whose modified time cannot be determined (OSError: the file's directory is gone, the mount is down): the real run
         # fails while planning, before any call or store access - and so must the dry run; it may not hand back a plan the real run never executes
